@@ -121,6 +121,19 @@ Proof.
     first [eapply reach_trans; eassumption | eapply exits_lf_pre; eauto].
 Qed.
 
+Lemma reach_ip code a ip1 ip2 s t : ip1 = ip2 -> reach code a (ip1, s, t) -> reach code a (ip2, s, t).
+Proof. intros ->; auto. Qed.
+
+Lemma sim_ip code cx ip e1 e2 st tr o st' tr' :
+  e1 = e2 -> sim code cx ip e1 st tr o st' tr' -> sim code cx ip e2 st tr o st' tr'.
+Proof. intros ->; auto. Qed.
+
+Ltac ip_eq :=
+  match goal with
+  | |- Some (?a, ?s, ?t) = Some (?b, ?s, ?t) =>
+      replace b with a by (unfold bsize; simpl; lia); reflexivity
+  end.
+
 (* ---------- the four statements proved together ---------- *)
 Definition P_exec (n : nat) : Prop :=
   forall s lbls st tr o st' tr', exec n lbls s st tr = Some (o, st', tr') -> nogoto s = true ->
@@ -258,4 +271,156 @@ Proof.
     + inversion Hex; subst. unfold sim in Hbs. apply exits_loop_frame in Hbs. unfold exits_lf in Hbs.
       unfold loop_goal. eapply exits_pre; [reflexivity|exact Hgo|exact Hbs].
   - inversion Hex; subst. unfold loop_goal. exact (Hstop eq_refl).
+Qed.
+
+Lemma step_exec n : P_exec n -> P_blk n -> P_loop n -> P_cl n -> P_exec (S n).
+Proof.
+  intros IHe IHb IHl IHc s lbls st tr o st' tr' Hex Hng code cx base c Hc Hat.
+  destruct s as [|a b|e|u i e|nl body|ce nt thn he els|nl init cond post nb body|tag cs|l|l|l s'|l|];
+    simpl in Hex, Hng, Hc.
+  - (* SSkip *) inversion Hex; inversion Hc; subst. unfold sim. simpl. rewrite Nat.add_0_r. apply reach_refl.
+  - (* SSeq *)
+    apply andb_prop in Hng as [Hng1 Hng2]. inv_bind' Hc. inv_bind' Hc. inversion Hc; subst. clear Hc.
+    apply at_code_app in Hat as [Hat1 Hat2]. rewrite (compile_size _ _ _ _ _ Hc0) in Hat2.
+    destruct (exec n [] a st tr) as [[[o1 st1] tr1]|] eqn:E1; [|discriminate].
+    assert (H1 := IHe _ _ _ _ _ _ _ E1 Hng1 _ _ _ _ Hc0 Hat1).
+    destruct o1; try (inversion Hex; subst; exact H1).
+    assert (H2 := IHe _ _ _ _ _ _ _ Hex Hng2 _ _ _ _ Hc1 Hat2). apply sim_add_lbls in H2.
+    unfold sim in H1. simpl size. rewrite Nat.add_assoc. eapply sim_seq; [exact H1|exact H2].
+  - (* SEmit *) inversion Hex; inversion Hc; subst. unfold sim. apply at_code_head in Hat.
+    eapply reach_one; [exact Hat|reflexivity].
+  - (* SAssign *) inversion Hex; inversion Hc; subst. unfold sim. apply at_code_head in Hat.
+    eapply reach_one; [exact Hat|reflexivity].
+  - (* SBlock *)
+    inv_bind' Hc. inversion Hc; subst. clear Hc.
+    apply after_block_inv in Hex as (stb & Eb & ->).
+    exact (body_sim n IHb _ _ _ _ _ _ _ code cx base c0 Eb Hng Hc0 Hat).
+  - (* SIf *)
+    apply andb_prop in Hng as [Hng1 Hng2]. inv_bind' Hc. inv_bind' Hc. inversion Hc; subst. clear Hc.
+    apply at_code_cons in Hat as [Hjif Hat]. apply at_code_app in Hat as [Hthen Hat].
+    rewrite wrap_length, (compile_size _ _ _ _ _ Hc0) in Hat. fold (bsize nt thn) in Hat.
+    apply at_code_app in Hat as [Hjmp Helse].
+    destruct (truthy (eval ce st)) eqn:Et.
+    + apply after_block_inv in Hex as (stb & Eb & ->).
+      assert (Hbs := body_sim n IHb _ _ _ _ _ _ _ code (emptyframe :: cx) (base + 1) c0 Eb Hng1 Hc0 Hthen).
+      apply sim_plain_frame0 in Hbs.
+      eapply sim_pre; [eapply reach_one; [exact Hjif|simpl; rewrite Et; reflexivity]|].
+      destruct o; try exact Hbs. unfold sim in *. eapply reach_trans; [exact Hbs|].
+      simpl size. unfold bsize. destruct he.
+      * apply at_code_head in Hjmp. eapply reach_one; [exact Hjmp|]. simpl. fold (bsize nt thn). ip_eq.
+      * eapply reach_ip; [|apply reach_refl]. unfold bsize; simpl; lia.
+    + eapply sim_pre; [eapply reach_one; [exact Hjif|simpl; rewrite Et; reflexivity]|].
+      destruct he.
+      * assert (H2 := IHe _ _ _ _ _ _ _ Hex Hng2 _ _ _ _ Hc1 Helse). apply sim_plain_frame0 in H2.
+        eapply sim_ip; [|exact H2]. unfold bsize; simpl; lia.
+      * inversion Hex; subst. unfold sim. eapply reach_ip; [|apply reach_refl]. unfold bsize; simpl; lia.
+  - (* SFor *)
+    inv_bind' Hc. inversion Hc; subst. clear Hc.
+    destruct (run_simple init (push nl st) tr) as [sti tri] eqn:Ei.
+    apply after_block_inv in Hex as (stl & El & ->).
+    set (cond_ip := base + cost nl + length init) in *.
+    set (X := map csimple init ++
+              (match cond with
+               | Some c => [IJif c (cond_ip + 1) (cond_ip + match cond with Some _ => 1 | None => 0 end + bsize nb body + length post + 1)]
+               | None => [] end) ++ wrap nb c0 ++ map csimple post ++ [IJmp 0 cond_ip]) in *.
+    assert (LX : length X = length init + match cond with Some _ => 1 | None => 0 end + bsize nb body + length post + 1).
+    { subst X. rewrite !app_length, wrap_length, !map_length, (compile_size _ _ _ _ _ Hc0). unfold bsize.
+      destruct cond; simpl; lia. }
+    destruct (at_code_wrap _ _ _ _ Hat) as [HX Hw].
+    apply at_code_app in HX as [Hinit Hloop]. rewrite map_length in Hloop. fold cond_ip in Hloop.
+    assert (Hl := IHl _ _ _ _ _ _ _ _ _ _ El Hng code cx (cost nl) cond_ip c0 Hc0 Hloop).
+    assert (Hri : reach code (base + cost nl, push nl st, tr) (cond_ip, sti, tri)).
+    { assert (R := reach_simple code init (base + cost nl) (push nl st) tr Hinit). rewrite Ei in R. exact R. }
+    assert (Hsz : base + size (SFor nl init cond post nb body) = base + cost nl + length X + cost nl).
+    { rewrite LX. simpl. unfold bsize. lia. }
+    rewrite Hsz. rewrite pop_skipn.
+    destruct (Nat.eq_dec nl 0) as [->|Hn].
+    + simpl cost in *. rewrite !Nat.add_0_r in *. simpl push in *.
+      assert (G := loop_goal_pre _ _ _ _ _ _ _ _ _ _ _ _ _ Hri Hl).
+      change (push 0 st) with st in G.
+      destruct o; unfold sim; try exact G.
+      change (skipn (cost 0) stl) with stl. eapply reach_ip; [|exact G].
+      rewrite LX; unfold cond_ip; simpl; lia.
+    + destruct (Hw Hn) as [Hpush Hpop]. rewrite (cost_pos nl Hn) in *. rewrite (push_pos nl st Hn) in Hri.
+      assert (Hr0 : reach code (base, st, tr) (cond_ip, sti, tri)).
+      { eapply reach_trans; [eapply reach_one; [exact Hpush|reflexivity]|exact Hri]. }
+      assert (G := loop_goal_pre _ _ _ _ _ _ _ _ _ _ _ _ _ Hr0 Hl).
+      destruct o; unfold sim; try exact G.
+      eapply reach_trans; [exact G|].
+      assert (Hpop' : nth_error code (cond_ip + match cond with Some _ => 1 | None => 0 end + bsize nb body + length post + 1) = Some IPop).
+      { rewrite <- Hpop. f_equal. rewrite LX; unfold cond_ip; lia. }
+      eapply reach_one; [exact Hpop'|]. simpl.
+      match goal with |- Some (?a, _, _) = Some (?b, _, _) => replace b with a by (rewrite LX; unfold cond_ip; lia) end.
+      destruct stl; reflexivity.
+  - (* SSwitch *)
+    inv_bind' Hc. inversion Hc; subst. clear Hc.
+    destruct (switch_entry code cx lbls base tag cs c0 st tr Hc0 Hat) as [[Hsel Hr]|(hb' & cc' & Hne & Hc' & Hat' & Hr)].
+    + rewrite Hsel in Hex. destruct n; [discriminate|]. simpl in Hex. inversion Hex; subst.
+      unfold sim. simpl size.
+      assert (Hd := has_default_ip cs (base + match tag with Some _ => 1 | None => 0 end + 1)).
+      destruct (default_ip _ cs) eqn:Ed; destruct (has_default cs) eqn:Eh;
+        try (exfalso; destruct Hd as [Hd1 Hd2];
+             first [ assert (X : Some n0 <> None) by congruence; specialize (Hd1 X); congruence
+                   | specialize (Hd2 eq_refl); congruence ]).
+      * replace (base + (match tag with Some _ => 1 | None => 0 end + 1 + csize cs + 1))
+          with (base + match tag with Some _ => 1 | None => 0 end + 1 + csize cs + 1) by lia. exact Hr.
+      * replace (base + (match tag with Some _ => 1 | None => 0 end + 1 + csize cs + 0))
+          with (base + match tag with Some _ => 1 | None => 0 end + 1 + csize cs + 0) by lia. exact Hr.
+    + destruct (clauses_from n _ st tr) as [[[o1 st1] tr1]|] eqn:Ec; [|discriminate].
+      assert (Hng' : nogoto_cs (select_clause match tag with Some e => eval e st | None => 1%Z end st cs) = true).
+      { clear - Hng. unfold select_clause.
+        assert (F1 : forall v cs cs', nogoto_cs cs = true -> find_case v st cs = Some cs' -> nogoto_cs cs' = true).
+        { intros v cs0; induction cs0 as [|k nb b f r IH]; simpl; intros cs' Hn Hf; [discriminate|].
+          apply andb_prop in Hn as [Hn1 Hn2]. destruct k.
+          - destruct (existsb _ es); [inversion Hf; subst; simpl; rewrite Hn1, Hn2; reflexivity|eauto].
+          - eauto. }
+        assert (F2 : forall cs cs', nogoto_cs cs = true -> find_default cs = Some cs' -> nogoto_cs cs' = true).
+        { intros cs0; induction cs0 as [|k nb b f r IH]; simpl; intros cs' Hn Hf; [discriminate|].
+          apply andb_prop in Hn as [Hn1 Hn2]. destruct k.
+          - eauto.
+          - inversion Hf; subst; simpl; rewrite Hn1, Hn2; reflexivity. }
+        destruct (find_case _ st cs) eqn:E1; [eapply F1; eauto|].
+        destruct (find_default cs) eqn:E2; [eapply F2; eauto|reflexivity]. }
+      assert (G := IHc _ _ _ _ _ _ Ec Hng' Hne code cx lbls hb' _ _ cc' Hc' Hat').
+      apply (cl_goal_pre _ _ _ _ _ _ _ _ _ _ _ _ _ Hr) in G.
+      assert (Hsz : base + size (SSwitch tag cs) =
+                    base + match tag with Some _ => 1 | None => 0 end + 1 + csize cs +
+                    match default_ip (base + match tag with Some _ => 1 | None => 0 end + 1) cs with Some _ => 1 | None => 0 end).
+      { simpl size.
+        assert (Hd := has_default_ip cs (base + match tag with Some _ => 1 | None => 0 end + 1)).
+        destruct (default_ip _ cs) eqn:Ed; destruct (has_default cs) eqn:Eh; try lia;
+          exfalso; destruct Hd as [Hd1 Hd2];
+          first [ assert (X : Some n0 <> None) by congruence; specialize (Hd1 X); congruence
+                | specialize (Hd2 eq_refl); congruence ]. }
+      rewrite Hsz. unfold cl_goal in G.
+      destruct o1; simpl in Hex.
+      * inversion Hex; subst. exact G.
+      * unfold exits_lf in G. destruct (lmatch l lbls); inversion Hex; subst; unfold sim; exact G.
+      * inversion Hex; subst. exact G.
+      * inversion Hex; subst. unfold exits_lf in G. contradiction.
+      * inversion Hex; subst. exact G.
+  - (* SBreak *)
+    inversion Hex; subst. destruct (resolve_break cx l 0) as [[u t]|] eqn:Er; [|discriminate].
+    inversion Hc; subst. unfold sim, exits. exists u, t. split; [exact Er|].
+    apply at_code_head in Hat. eapply reach_one; [exact Hat|reflexivity].
+  - (* SContinue *)
+    inversion Hex; subst. destruct (resolve_cont cx l 0) as [[u t]|] eqn:Er; [|discriminate].
+    inversion Hc; subst. unfold sim, exits. exists u, t. split; [exact Er|].
+    apply at_code_head in Hat. eapply reach_one; [exact Hat|reflexivity].
+  - (* SLabeled *)
+    assert (H1 := IHe _ _ _ _ _ _ _ Hex Hng _ _ _ _ Hc Hat). apply sim_add_lbls in H1. exact H1.
+  - (* SGoto *) discriminate.
+  - (* SReturn *)
+    inversion Hex; inversion Hc; subst. unfold sim, exits. exists base, st', 0.
+    split; [apply reach_refl|]. split; [apply (at_code_head _ _ _ _ Hat)|reflexivity].
+Qed.
+
+Theorem sim_all : forall n, P_exec n /\ P_blk n /\ P_loop n /\ P_cl n.
+Proof.
+  induction n as [|n (He & Hb & Hl & Hc)].
+  - repeat split; red; intros; simpl in *; discriminate.
+  - assert (He' := step_exec n He Hb Hl Hc). repeat split; try assumption.
+    + apply step_blk; assumption.
+    + apply step_loop; assumption.
+    + apply step_cl; assumption.
 Qed.
